@@ -489,11 +489,11 @@ theorem collectOne_spec {nsmap m : Dict} (hn : NsMapOk nsmap) (h : Inv nsmap m) 
             · have hpq : p = q := str_append_colon_inj hq
               subst hpq
               rcases ho with ho | ho
-              · have := lookupPrefix_inj hn.1 ho hl
+              · have := lookupPrefix_inj hn.keysNodup ho hl
                 subst this
                 rw [hnone'] at hk
                 cases hk
-              · rw [lookupPrefix_dget hn.1 hl] at ho
+              · rw [lookupPrefix_dget hn.keysNodup hl] at ho
                 cases ho
           · rename_i hcont
             refine ⟨(by intro s hs; cases hs), ?_⟩
@@ -503,7 +503,7 @@ theorem collectOne_spec {nsmap m : Dict} (hn : NsMapOk nsmap) (h : Inv nsmap m) 
             · apply h.dset (not_contains_fresh hcont)
               · intro he; exact absurd he hne'
               · refine Or.inr ⟨p, rfl, hp', ?_, Or.inl hl⟩
-                exact hn.2 p (mem_dkeys_of_mem (lookupPrefix_mem hl))
+                exact hn.noColon p (mem_dkeys_of_mem (lookupPrefix_mem hl))
               · intro _ q hq _
                 rw [hl] at hq
                 cases hq
@@ -753,21 +753,40 @@ theorem orders_cover {root : Node} {orders : List (List String)}
   have := hp.2 ns hnn
   exact List.mem_flatten.mpr ⟨o, (List.of_mem_zip hz).1, by simpa using this⟩
 
-theorem Inv.pmapOk {nsmap m : Dict} {t : Node} (h : Inv nsmap m)
-    (htotal : ∀ ns ∈ treeNamespaces t, ns ∈ dkeys m)
-    (hempty : ∀ q, lookupPrefix nsmap "" = some q → q = "") : PMapOk nsmap m t := by
-  refine ⟨?_, h.inj, h.emptyNs, ?_, ?_, h.keysNodup⟩
+theorem xml_colon_lit : "xml:" = "xml" ++ ":" ∧ "xmlns:" = "xmlns" ++ ":" ∧
+    "xml:" ≠ "" ∧ "xmlns:" ≠ "" := by decide
+
+/-- a collected prefix `g:` for a prefix `g` the caller's mapping binds to `gns` belongs to `gns` -/
+theorem Inv.bound_prefix {nsmap m : Dict} (hn : NsMapOk nsmap) (h : Inv nsmap m)
+    {g gns v ns : String} (hg : dget nsmap g = some gns) (hv : v = g ++ ":") (hne : v ≠ "")
+    (hd : dget m ns = some v) : ns = gns := by
+  rcases h.origin ns v hd with ho | ⟨q, hq, _, _, ho⟩
+  · exact absurd ho hne
+  · have hgq : g = q := str_append_colon_inj (hv.symm.trans hq)
+    subst hgq
+    rcases ho with ho | ho
+    · have := lookupPrefix_dget hn.keysNodup ho
+      rw [hg] at this
+      cases this
+      rfl
+    · rw [hg] at ho
+      cases ho
+
+theorem Inv.pmapOk {nsmap m : Dict} {t : Node} (hn : NsMapOk nsmap) (h : Inv nsmap m)
+    (htotal : ∀ ns ∈ treeNamespaces t, ns ∈ dkeys m) : PMapOk nsmap m t := by
+  refine ⟨?_, h.inj, h.emptyNs, ?_, ?_, h.keysNodup, ?_, ?_⟩
   · intro ns hns
     exact dget_isSome_iff.mpr (htotal ns hns)
   · intro ns p hp
     rcases h.origin ns p hp with ho | ⟨q, hq, hq1, hq2, _⟩
     · exact Or.inl ho
     · exact Or.inr ⟨q, hq, hq1, hq2⟩
-  · intro ns q p hl hq hp
-    by_cases hns : ns = ""
-    · subst hns
-      exact absurd (hempty q hl) hq
-    · exact h.caller ns p q hp hns hl hq
+  · intro ns q p hns hl hq hp
+    exact h.caller ns p q hp hns hl hq
+  · intro ns hd
+    exact h.bound_prefix hn hn.xml xml_colon_lit.1 xml_colon_lit.2.2.1 hd
+  · intro ns hd
+    exact h.bound_prefix hn hn.xmlns xml_colon_lit.2.1 xml_colon_lit.2.2.2 hd
 
 /-! ## facts about the generated tables and literals (small `decide`s) -/
 
@@ -776,6 +795,7 @@ theorem xmlns_mem_globalPrefixes : "xmlns" ∈ Gen.globalPrefixes := by decide
 theorem commonPrefixes_no_colon : ∀ pn ∈ Gen.commonNamespaces, ':' ∉ pn.1.toList := by decide
 theorem literal_facts : ':' ∉ "xml".toList ∧ ':' ∉ "xmlns".toList ∧ ':' ∉ "".toList ∧
     "xml" ≠ "xmlns" ∧ "" ≠ "xml" := by decide
+theorem empty_ne_xmlns : "" ≠ "xmlns" := by decide
 
 /-! ## `normalizeDecls` -/
 
@@ -995,10 +1015,35 @@ theorem normalizeDecls_nodup {decls : List (Option String × String)} {nsmap : D
   obtain ⟨g1, _⟩ := go_spec _ _ _ _ _ hgo
   exact (foldl_common_spec declared _ _).1 (g1 initDict_nodup)
 
+/-- the two global bindings, inserted first, survive: no declaration may use their prefixes -/
+theorem normalizeDecls_globals {decls : List (Option String × String)} {nsmap : Dict}
+    (h : normalizeDecls decls = .ok nsmap) :
+    dget nsmap "xml" = some Gen.xmlNamespace ∧ dget nsmap "xmlns" = some Gen.xmlnsNamespace := by
+  obtain ⟨_, declared, result, hgo, rfl⟩ := normalizeDecls_ok h
+  obtain ⟨_, _, g3, _, g5, _⟩ := go_spec _ _ _ _ _ hgo
+  obtain ⟨_, _, f3, _⟩ := foldl_common_spec declared Gen.commonNamespaces result
+  have hkey : ∀ g, g ∈ Gen.globalPrefixes → "" ≠ g → ∀ d ∈ decls, declKey d ≠ g := by
+    intro g hg hge d hd
+    obtain ⟨p, ns⟩ := d
+    cases p with
+    | none => exact hge
+    | some p =>
+      intro he
+      simp only [declKey, Option.getD_some] at he
+      subst he
+      exact g5 _ hd _ rfl hg
+  constructor
+  · apply f3
+    rw [g3 _ (hkey _ xml_mem_globalPrefixes literal_facts.2.2.2.2)]
+    simp [dget]
+  · apply f3
+    rw [g3 _ (hkey _ xmlns_mem_globalPrefixes empty_ne_xmlns)]
+    simp [dget]
+
 theorem normalizeDecls_nsMapOk {decls : List (Option String × String)} {nsmap : Dict}
     (hcolon : ∀ d ∈ decls, ∀ p, d.1 = some p → ':' ∉ p.toList)
     (h : normalizeDecls decls = .ok nsmap) : NsMapOk nsmap := by
-  refine ⟨normalizeDecls_nodup h, ?_⟩
+  refine ⟨normalizeDecls_nodup h, ?_, (normalizeDecls_globals h).1, (normalizeDecls_globals h).2⟩
   obtain ⟨_, declared, result, hgo, rfl⟩ := normalizeDecls_ok h
   obtain ⟨_, g2, _⟩ := go_spec _ _ _ _ _ hgo
   intro k hk
@@ -1023,19 +1068,7 @@ theorem normalizeDecls_keeps {decls : List (Option String × String)} {nsmap : D
   obtain ⟨hne, declared, result, hgo, rfl⟩ := normalizeDecls_ok h
   obtain ⟨_, _, g3, g4, g5, g6, g7, _⟩ := go_spec _ _ _ _ _ hgo
   obtain ⟨_, _, f3, f4⟩ := foldl_common_spec declared Gen.commonNamespaces result
-  constructor
-  · apply f3
-    rw [g3]
-    · simp [dget]
-    · intro d hd
-      obtain ⟨p, ns⟩ := d
-      cases p with
-      | none => exact literal_facts.2.2.2.2
-      | some p =>
-        intro he
-        simp only [declKey, Option.getD_some] at he
-        subst he
-        exact g5 _ hd _ rfl xml_mem_globalPrefixes
+  refine ⟨(normalizeDecls_globals h).1, ?_⟩
   · intro p ns hmem
     have hpw : decls.Pairwise (fun a b => declKey a ≠ declKey b) := by
       have := List.pairwise_map.mp hnodup
